@@ -29,9 +29,10 @@ VARIABLES tr, l,
           stalled,    \* the current incarnation had a failed write while another task kept the target's entity alive
           ackts,      \* pack id -> <<ms, logical>>: emitted end time of the last effective downstream write that carried the pack
           okc03,
+          faulty,     \* an injected fault is active (armed call fault, refused describe, failing stream open)
           infofail,   \* collections the downstream currently refuses to describe: their replication cannot be started
           okc05, okc06, kfused
-vars == <<tr, l, acked, delivered, prevStore, prevApi, eof, batch, lost, stalled, ackts, okc03, infofail, okc05, okc06, kfused>>
+vars == <<tr, l, acked, delivered, prevStore, prevApi, eof, batch, lost, stalled, ackts, okc03, faulty, infofail, okc05, okc06, kfused>>
 
 Params == Traces[tr].params
 Catalog == Params.catalog
@@ -40,7 +41,7 @@ TaskList == Params.tasks
 
 TInit == /\ tr \in 1..Len(Traces) /\ l = 1
          /\ acked = {} /\ delivered = <<>> /\ prevStore = [tasks |-> <<>>, pos |-> <<>>] /\ prevApi = <<>>
-         /\ eof = {} /\ batch = {} /\ lost = {} /\ stalled = FALSE /\ ackts = <<>> /\ okc03 = TRUE /\ infofail = {} /\ okc05 = TRUE /\ okc06 = TRUE /\ kfused = {}
+         /\ eof = {} /\ batch = {} /\ lost = {} /\ stalled = FALSE /\ ackts = <<>> /\ okc03 = TRUE /\ faulty = <<FALSE, "">> /\ infofail = {} /\ okc05 = TRUE /\ okc06 = TRUE /\ kfused = {}
 
 (* ---------------- catalog helpers ---------------- *)
 CollById(id) == Catalog[CHOOSE i \in 1..Len(Catalog) : Catalog[i].id = id]
@@ -203,6 +204,16 @@ LoopExitOK(e, nb) ==
         \/ \A id \in nb : (KnownPack(id) /\ Running(e.api, TaskOfStream(StreamOfPackId(id)))) =>
                \E j \in 1..(i - 1) : e.log[j].ev = "ack" /\ \E k \in 1..Len(e.log[j].ids) : e.log[j].ids[k] = id
 
+(* ---------------- C11 (end to end) ---------------- *)
+\* "only ... Paused->Running ... succeed": with no injected fault active, resuming a Paused task works - whatever went wrong
+\* in an earlier, failed start of the task (what it had acquired then has been released: "a paused task ... releases its
+\* share of the per-target replication resources")
+NoFaultNow == ~faulty[1] /\ faulty[2] = "" /\ infofail = {}
+ResumeWorks(e) ==
+    (e.op = "resume" /\ ~("dead" \in DOMAIN e) /\ NoFaultNow /\ ~Crashed(e.log) /\ StateIn(prevApi, e.task).state = "Paused"
+       /\ ~\E i \in 1..Len(e.log) : "ok" \in DOMAIN e.log[i] /\ ~e.log[i].ok) =>
+        ~e.err /\ StateIn(e.api, e.task).state = "Running"
+
 (* ---------------- C04 (end to end) ---------------- *)
 \* "CDC issues exactly one downstream drop request ... only after the drop message has been read on every shard": when the
 \* pack carrying the drop-collection message of a single-shard collection has been written downstream in a step that did
@@ -234,6 +245,9 @@ TStep ==
        /\ ackts' = AckTimes(e.log, 1, ackts)
        /\ okc03' = (okc03 /\ FloorAboveAck(e.regs, ackts))
        /\ (P("C03") => okc03')
+       /\ faulty' = IF e.op = "arm" THEN <<TRUE, faulty[2]>> ELSE IF e.op = "disarm" THEN <<FALSE, faulty[2]>>
+                    ELSE IF e.op = "mqfail" THEN <<faulty[1], e.prefix>> ELSE faulty
+       /\ (P("C11") => ResumeWorks(e))
        /\ infofail' = IF e.op = "infofail" THEN (IF e.on THEN infofail \cup {e.c} ELSE infofail \ {e.c}) ELSE infofail
        /\ prevStore' = e.store /\ prevApi' = e.api
        /\ (P("C05") => okc05')
